@@ -242,4 +242,11 @@ def run(tier):
     chk.sample({"type_level": r["samples"][0]})
     chk.assumptions += ["fresh HashMap/HashSet instances get fresh random keys (std RandomState), so repetitions vary the iteration order",
                         "a 2-way order dependence escapes K*3 repetitions with probability 2^-(3K-1) per program"]
+    # (c) imports over a changing file tree: the outcome of a parse is a function of the files as they are now, whatever
+    # was parsed before in the same process (MC_Imports.tla, every behaviour replayed in one process)
+    from vlib import importswalk
+    iw = importswalk.run(chk, tier)
+    for m in iw["mismatches"]:
+        if m["kind"] == "outcome":
+            chk.violation({"kind": "imports-walk-outcome", "text": m.get("text"), "history": " ; ".join(m.get("history", []))}, m)
     return chk.finish()
